@@ -725,7 +725,8 @@ func c12KnownPattern(s c12Seq, v *c12Verdict) string {
 
 func init() {
 	register("C12", func(r *Result, rng *rand.Rand, tier string) {
-		n := 2500
+		defer c12Timed("e2e")()
+		n := 2000
 		if tier == "thorough" {
 			n = 55000
 		} else if tier == "search" {
